@@ -401,12 +401,14 @@ void janet_bytecode_movopt(JanetFuncDef *def) {
 int janet_verify(JanetFuncDef *def) {
     int vargs = !!(def->flags & JANET_FUNCDEF_FLAG_VARARG);
     int32_t i;
-    int32_t maxslot = def->arity + vargs;
     int32_t sc = def->slotcount;
 
     if (def->bytecode_length == 0) return 1;
 
-    if (maxslot > sc) return 2;
+    /* Slots are addressed with at most 24 bits. The bound also keeps the
+     * frame size arithmetic in janet_fiber_funcframe from overflowing. */
+    if (sc < 0 || sc > 0x1000000) return 2;
+    if (def->arity < 0 || def->arity > sc - vargs) return 2;
 
     /* Verify each instruction */
     for (i = 0; i < def->bytecode_length; i++) {
